@@ -486,7 +486,7 @@ func (p *Project) WithSelectedServices(names []string, options ...DependencyOpti
 	}
 
 	// Disable all services which are not explicit target or dependencies
-	enabled := Services{}
+	var unselected []string
 	for name, s := range newProject.Services {
 		if _, ok := set[name]; ok {
 			// remove all dependencies but those implied by explicitly selected services
@@ -497,13 +497,13 @@ func (p *Project) WithSelectedServices(names []string, options ...DependencyOpti
 				}
 			}
 			s.DependsOn = dependencies
-			enabled[name] = s
+			newProject.Services[name] = s
 		} else {
-			newProject = newProject.WithServicesDisabled(name)
+			unselected = append(unselected, name)
 		}
 	}
-	newProject.Services = enabled
-	return newProject, nil
+	// all at once, so the result does not depend on map iteration order
+	return newProject.WithServicesDisabled(unselected...), nil
 }
 
 // WithServicesDisabled removes from the project model the given services and their references in all dependencies
@@ -517,16 +517,19 @@ func (p *Project) WithServicesDisabled(names ...string) *Project {
 		newProject.DisabledServices = Services{}
 	}
 	for _, name := range names {
+		if service, ok := newProject.Services[name]; ok {
+			newProject.DisabledServices[name] = service
+			delete(newProject.Services, name)
+		}
+	}
+	for _, name := range names {
 		// We should remove all dependencies which reference the disabled service
+		// from the services which remain enabled, whatever the order of names
 		for i, s := range newProject.Services {
 			if _, ok := s.DependsOn[name]; ok {
 				delete(s.DependsOn, name)
 				newProject.Services[i] = s
 			}
-		}
-		if service, ok := newProject.Services[name]; ok {
-			newProject.DisabledServices[name] = service
-			delete(newProject.Services, name)
 		}
 	}
 	return newProject
